@@ -296,6 +296,10 @@ def run(ch: Checker) -> None:
     # ---------------- C06.6 per-message header maps
     from .common import fresh_headers_check
     fresh_headers_check(ch, 'C06.6')
+    # ---------------- C06.11-13 (shared)
+    ch.import_rules('C01', {'C01.2': 'C06.11', 'C01.3': 'C06.12'}, 'a reply is complete on the wire only if flush() removes exactly what send() accepted')
+    ch.import_rules('C07', {'C07.2b': 'C06.13'}, 'a closing reply is followed by the close only if the flush-before-shutdown flag survives until the buffer is empty')
+
     # ---------------- C06.7 / C06.8 (shared)
     ch.import_rules('C03', {'C03.1': 'C06.7', 'C03.2': 'C06.8'}, 'a request whose terminator is split across reads is only recognised (and answered) if the parser carries the unconsumed bytes over')
 
